@@ -1032,6 +1032,52 @@ func newDObject(vals ...any) *dObject {
 	return d
 }
 
+// everyStorePath: a container is stored as is (same identity, derived type kept) by every entry point
+func everyStorePath(c *oracleCtx) {
+	c.check("retrieval:every-store-path", true, func() string {
+		// a container is stored as is by every entry point, also when it reaches the container inside a native slice / map
+		for _, pair := range [][2]any{{newDList(1), newDObject("k", 1)}, {newDDListInnerFirst(1), newDDObject("k", 1)}, {NewList(1), NewObject("k", 1)}} {
+			dl, do := pair[0].(List), pair[1].(Object)
+			lists := map[string]List{
+				"NewList": NewList(dl, do), "Add": NewList().Add(dl, do), "Insert": NewList(0).Insert(0, do).Insert(0, dl), "Replace": NewList(0, 0).Replace(0, dl).Replace(1, do),
+				"SetTF": NewList().SetTF("#0", dl).SetTF("#1", do), "NewListFrom[]any": NewListFrom([]any{dl, do}), "Add([]any)": NewList().Add([]any{dl, do}).GetList(0),
+				"NewList([]any)": NewList([]any{dl, do}).GetList(0), "Set(k,[]any)": NewObject("z", []any{dl, do}).GetList("z"), "Concat": NewList().Concat(NewList(dl, do)),
+				"SubList":       NewList(dl, do, 1).SubList(0, 2),
+				"nested-native": NewListFrom([]any{[]any{dl, do}}).GetList(0),
+			}
+			for name, l := range lists {
+				if l.Get(0) != any(dl) || l.GetList(0) != dl || l.Get(1) != any(do) || l.GetObject(1) != do {
+					return name + ": a stored container is not handed back identically"
+				}
+			}
+			if l := NewListFrom([]List{dl, dl}); l.Get(0) != any(dl) || l.GetList(1) != dl {
+				return "NewListFrom([]List): a stored list is not handed back identically"
+			}
+			if l := NewListFrom([]Object{do}); l.Get(0) != any(do) || l.GetObject(0) != do || NewList([]Object{do}).GetList(0).GetObject(0) != do {
+				return "NewListFrom([]Object): a stored object is not handed back identically"
+			}
+			objs := map[string]Object{
+				"NewObject": NewObject("l", dl, "o", do), "Set": NewObject().Set("l", dl, "o", do), "SetTF": NewObject().SetTF(".l", dl).SetTF(".o", do),
+				"NewObjectFrom[any]": NewObjectFrom(map[string]any{"l": dl, "o": do}), "Set(k,map)": NewObject("z", map[string]any{"l": dl, "o": do}).GetObject("z"),
+				"Add(map)": NewList(map[string]any{"l": dl, "o": do}).GetObject(0), "Merge": NewObject().Merge(NewObject("l", dl, "o", do)), "Pluck": NewObject("l", dl, "o", do, "x", 1).Pluck("l", "o"),
+				"nested-native": NewObjectFrom(map[string]any{"in": map[string]any{"l": dl, "o": do}}).GetObject("in"),
+			}
+			for name, o := range objs {
+				if o.Get("l") != any(dl) || o.GetList("l") != dl || o.Get("o") != any(do) || o.GetObject("o") != do {
+					return name + ": a stored container is not handed back identically"
+				}
+			}
+			if o := NewObjectFrom(map[string]List{"l": dl}); o.Get("l") != any(dl) || NewObject("m", map[string]List{"l": dl}).GetObject("m").GetList("l") != dl {
+				return "NewObjectFrom(map[string]List): a stored list is not handed back identically"
+			}
+			if o := NewObjectFrom(map[string]Object{"o": do}); o.Get("o") != any(do) || NewList(map[string]Object{"o": do}).GetObject(0).GetObject("o") != do {
+				return "NewObjectFrom(map[string]Object): a stored object is not handed back identically"
+			}
+		}
+		return ""
+	})
+}
+
 func c19Oracle(c *oracleCtx) {
 	c.rule = "derived types embedding List/Object (one and two levels) registered with Init: every fluent method must return the registered outer value on representative arguments (incl. already sorted lists, nested tree-form paths), Ego returns it, and every retrieval path hands back the identical outer value"
 	type lcase struct {
@@ -1158,6 +1204,7 @@ func c19Oracle(c *oracleCtx) {
 		}
 		return ""
 	})
+	everyStorePath(c)
 	c.check("retrieval:listof", true, func() string {
 		dl, do := newDList(1), newDObject("k", 1)
 		for n := 1; n <= 3; n++ {
@@ -1221,12 +1268,12 @@ func c19Oracle(c *oracleCtx) {
 // C15: async variants under whatever schedules the runtime produces (bounded; no schedule control)
 
 func c15Oracle(c *oracleCtx) {
-	c.rule = "ForEachAsync / MapAsync on containers of size 0..9 under GOMAXPROCS 1, 2, 8 with callbacks that yield, repeated; invocation multiset, completion before return, MapAsync == Map; concurrent read-only calls on a shared container"
+	c.rule = "ForEachAsync / MapAsync on containers of size 0..9 under GOMAXPROCS 1, 2, 8 with callbacks that yield, repeated; invocation multiset, completion before return, MapAsync == Map; concurrent read-only calls on a shared container; ForEachAsync under every finishing order of the callbacks for n <= 4"
 	reps := 30
 	if c.thorough {
 		reps = 400
 	}
-	c.bound = fmt.Sprintf("sizes 0..9 x 3 GOMAXPROCS x %d repetitions (schedules are whatever the runtime produces: bounded, not exhaustive)", reps)
+	c.bound = fmt.Sprintf("sizes 0..9 x 3 GOMAXPROCS x %d repetitions (schedules are whatever the runtime produces: bounded, not exhaustive); all 32 finishing orders of 2..4 callbacks, list and object side", reps)
 	old := runtime.GOMAXPROCS(0)
 	defer runtime.GOMAXPROCS(old)
 	for _, procs := range []int{1, 2, 8} {
@@ -1422,6 +1469,80 @@ func c15Oracle(c *oracleCtx) {
 		}
 		return ""
 	})
+	// controlled schedules: every order in which the callbacks FINISH (all n! orders for n <= 4): the callback of the
+	// element that is k-th in the order returns only after the (k-1)-th has returned; whatever the order, every
+	// element is visited once and the call returns after the last callback
+	var perms func(n int) [][]int
+	perms = func(n int) [][]int {
+		if n == 0 {
+			return [][]int{{}}
+		}
+		var out [][]int
+		for _, p := range perms(n - 1) {
+			for pos := 0; pos <= len(p); pos++ {
+				q := append(append(append([]int{}, p[:pos]...), n-1), p[pos:]...)
+				out = append(out, q)
+			}
+		}
+		return out
+	}
+	for n := 2; n <= 4; n++ {
+		for _, order := range perms(n) {
+			n, order := n, order
+			c.check(fmt.Sprintf("finish-order:%v", order), true, func() string {
+				for _, side := range []string{"list", "object"} {
+					rank := make([]int, n) // rank[i]: position of element i in the finishing order
+					for k, i := range order {
+						rank[i] = k
+					}
+					finished := make([]chan struct{}, n)
+					for i := range finished {
+						finished[i] = make(chan struct{})
+					}
+					var mu sync.Mutex
+					var got []int
+					body := func(i int) {
+						if rank[i] > 0 {
+							<-finished[order[rank[i]-1]]
+						}
+						mu.Lock()
+						got = append(got, i)
+						mu.Unlock()
+						close(finished[i])
+					}
+					ret := make(chan struct{})
+					go func() {
+						defer close(ret)
+						if side == "list" {
+							l := NewList()
+							for i := 0; i < n; i++ {
+								l.Add(i)
+							}
+							l.ForEachAsync(func(i int, v any) { body(v.(int)) })
+						} else {
+							o := NewObject()
+							for i := 0; i < n; i++ {
+								o.Set("k"+strconv.Itoa(i), i)
+							}
+							o.ForEachAsync(func(k string, v any) { body(v.(int)) })
+						}
+					}()
+					select {
+					case <-ret:
+					case <-time.After(3 * time.Second):
+						return fmt.Sprintf("%s ForEachAsync does not complete under the schedule in which the callbacks finish in the order %v (a callback was not started while another was delayed)", side, order)
+					}
+					mu.Lock()
+					g := append([]int{}, got...)
+					mu.Unlock()
+					if !reflect.DeepEqual(g, order) {
+						return fmt.Sprintf("%s ForEachAsync: callbacks finished in the order %v under the schedule %v", side, g, order)
+					}
+				}
+				return ""
+			})
+		}
+	}
 	c.check("nested-mapasync", true, func() string {
 		// a pure mapping function may itself use the async variants (rows of a table, an object of lists)
 		rows := NewList(NewList(1, 2), NewList(3), NewList())
